@@ -226,3 +226,75 @@ func TestLowestFreeDescriptorIsReused(t *testing.T) {
 		}
 	})
 }
+
+func TestReadWithExpiredDeadlineFailsAtOnceEvenWithDataWaiting(t *testing.T) {
+	run(t, 3, func() {
+		w := Reset()
+		l := ListenHarness("localhost:7001")
+		c, err := Connect("localhost:7001")
+		if err != nil {
+			t.Fatal(err)
+		}
+		s, _ := l.AcceptTCP()
+		if _, err := c.Write([]byte("hello")); err != nil {
+			t.Fatal(err)
+		}
+		_ = s.SetReadDeadline(time.Now().Add(10 * time.Millisecond))
+		simrt.Sleep("test", 50*time.Millisecond)
+		buf := make([]byte, 16)
+		// the deadline passed while nobody was reading: Go's poller fails the call before it looks at the socket
+		if _, err := s.Read(buf); !errors.Is(err, os.ErrDeadlineExceeded) {
+			t.Errorf("read with a deadline in the past: %v", err)
+		}
+		if w.Stats.ExpiredDeadlineReadsWithDataWaiting != 1 {
+			t.Errorf("counter = %d", w.Stats.ExpiredDeadlineReadsWithDataWaiting)
+		}
+		// a renewed deadline delivers the data that has been waiting all along
+		_ = s.SetReadDeadline(time.Now().Add(time.Second))
+		if n, err := s.Read(buf); err != nil || string(buf[:n]) != "hello" {
+			t.Errorf("read after renewal: %q %v", buf[:n], err)
+		}
+	})
+}
+
+func TestProcessDiedFreesPortAndResetsConnections(t *testing.T) {
+	run(t, 5, func() {
+		w := Reset()
+		var srv *TCPConn
+		done := make(chan struct{})
+		simrt.GoNamed("sut", 1, func() {
+			l, err := Listen("tcp", "localhost:7002")
+			if err != nil {
+				t.Error(err)
+			}
+			srv, _ = l.(*TCPListener).AcceptTCP()
+			close(done)
+		})
+		simrt.Sleep("test", time.Millisecond)
+		c, err := Connect("localhost:7002")
+		if err != nil {
+			t.Fatal(err)
+		}
+		simrt.Recv("test", done)
+		if srv.FD() == 0 {
+			t.Fatal("connection of the system under test has no descriptor")
+		}
+		w.ProcessDied()
+		if len(w.OpenFDs()) != 0 {
+			t.Errorf("descriptors left after the process died: %v", w.OpenFDs())
+		}
+		if _, err := c.Write([]byte("x")); !errors.Is(err, syscall.ECONNRESET) && !errors.Is(err, syscall.EPIPE) {
+			t.Errorf("write to a dead process: %v", err)
+		}
+		if _, err := Connect("localhost:7002"); !errors.Is(err, syscall.ECONNREFUSED) {
+			t.Errorf("dial after the process died: %v", err)
+		}
+		// the next process can bind the port again
+		simrt.GoNamed("sut2", 2, func() {
+			if _, err := Listen("tcp", "localhost:7002"); err != nil {
+				t.Errorf("bind after the process died: %v", err)
+			}
+		})
+		simrt.Sleep("test", time.Millisecond)
+	})
+}
